@@ -147,6 +147,48 @@ CHECKS = {
         technique="property oracle on the real compiler over marked multi-file projects (every op-producing source node recognisable from the content of its op; positions from the harness printer) + Lean 4 proof of the SourceMapBuilder protocol for all command sequences and of the counting behind macro return addresses for all blueprints + per-input validation (recorded builder calls replayed through the Lean model, every ExplorerScriptMacro.build call re-derived by the Lean model of build, decidable disciplines of the theorems evaluated on the recorded run)",
         text="Proof (K3), kernel-checked for ALL command sequences of SourceMapBuilder: the entry under an offset is the argument of the last add_opcode / add_macro_opcode for it (entry_is_last_add); a macro entry takes return address and parameter mapping from the top of the context stack and the call position from the pending next_macro_opcode_called_in (macro_entry_uses_stack_top); a call position is consumed by exactly the next add_macro_opcode (called_in_once); no offset is in both tables when the offsets given to the two methods are disjoint (direct_and_macro_disjoint_if); a run raises iff a pop or add_macro_opcode happens outside every context, and bracketed sequences leave the stack as found (run_ok_iff_depthOk, push_pop_balanced). For ALL blueprint lists built from ops, labels, concatenation and outputs of build: expanding at counter c pushes c+n+1 (n = non-label items), hands out exactly the offsets c+1..c+n, each smaller than the return address on top of the stack at that moment, every nested return address equals the next number of the counter when its expansion ends (ret_addr_bounds, blueprint_seg, events_bounds), and the builder calls of the model of build follow that machine (buildLoop_trace). Validation per explored input: which source node an op belongs to, the designated-node table (design_notes/C08.md), macro file / name / position, call position on the first op, return address bounds against the real emitted ops, files named, position marks — checked by the oracle on the real compiler's output; no forall-programs statement about the compile handlers is claimed.",
         note=COMMON_NOTE + "The compile handlers and the ANTLR parser are not modelled. Positions come from the harness printer (cross-checked by parsing the text back with the repository's parser). Label jumps (Jump/Call ops) carry no recognisable content and are checked only for an entry at the start of some statement, header or case. Seven narrow known findings are listed in known_findings.jsonl (wrong file for transitively imported macros, position marks of other macros of a file, null file for position marks reached through a same-file nested call, outer call site shadowed, call position on a dropped op, wrong parameter mapping at depth 3, position mark tuple layout vs docs); the hang on Position literals in nested same-file macros was repaired in /repo (1dfd06a) and is kept as a regression witness."),
+    "C11": dict(
+        level="other", design="4/C11",
+        technique="Lean 4 theorems about an abstract protocol machine (K3) for the id(graph)-keyed memo table of graph_utils.py under ALL histories of "
+                  "alloc / mutate / clear / query (lookup, store sections) / drop with recyclable ids, plus two small object models (parameter `indent`, compiler object); "
+                  "trace validation: real convert() runs recorded by wrappers installed from outside are replayed through the Lean machine section by section and judged by the "
+                  "Lean discipline predicates; history exploration of the real code: every call after a generated history in a long-lived process is compared byte for byte "
+                  "with the same call alone in a fresh process, differences are shrunk and diagnosed",
+        text="Kernel-checked for ALL histories, graph ids (recycled or not), keys, arguments, contents and for an arbitrary search function: (cache_fresh) if every (re)allocation and "
+             "mutation of a graph is followed by a clear before the next query and no key is queried with two argument sets between clears, every value the table returns is the value "
+             "recomputed from the graph as it is now, from ANY earlier state of the table, and no KeyError; (call_independent_of_memo) a call whose queries all follow a clear of the "
+             "same id within the call gives identical outputs (values and hit/miss) from any two states of the table, in particular after any history and in a fresh process; "
+             "(tidy_prefix_then_fresh) the same holds for any call if the history before it left every table empty; counterexample theorems show that neither guard can be dropped "
+             "(an id recycled after an abandoned convert() answers with the dead graph's value). print_indent_only: printing writes nothing but `indent`, the op keeps its meaning and "
+             "compares equal; compile_reset: compile() on a reused object gives the results of a fresh object for every attribute it resets (macro_resolution_order is not one: "
+             "counterexample). On every run the recorded real histories (quick: ~10^4 sections) must agree with the machine and every recorded call must be Isolated or follow a Tidy "
+             "history - so the memo table cannot make a result depend on the history; all other process-wide state is covered by the exploration only: quick 100 histories x <= 6 calls, "
+             "thorough 5000 x <= 20, with failing inputs, abandoned decompilations, repeated inputs, reused compiler objects, gc and allocation churn, the decompile CLI helpers, fresh "
+             "processes with other hash seeds.",
+        note="K3: the machine is an abstraction of the locking/clearing protocol, not a model of the decompiler; the graph search `_impl` is a parameter. Trusted: Lean 4.33 kernel (axioms "
+             "audited per run), the instrumentation in harness/impl_cache.py (monkeypatches; completeness of the mutation hooks is cross-checked by graph fingerprints at every query), "
+             "the driver's JSON glue. NOT modellable and covered by exploration only: which ids CPython recycles (allocator state; id reuse is provoked, and observed in every run, but not "
+             "controlled), the ANTLR runtime's class-level ATN/DFA caches (known finding: they change the MESSAGE of ParseErrors), igraph's internals, hash-seed dependent iteration "
+             "orders. Known findings on the current tree: cli read_routines module-level counter, macro_resolution_order kept for SsbScript-marked sources, convert() twice on one "
+             "decompiler object, ParseError message; fixed during this round (16ab1ed): stale memo entry under a recycled id after an abandoned convert()."),
+    "C12": dict(
+        level="other", design="4/C12",
+        technique="Lean 4 theorem about the same memo-table machine shared by any number of threads under EVERY interleaving of the atomic sections the real functions consist of "
+                  "(lock;lookup;unlock - compute - lock;store;unlock - lock;clear;unlock, ids recyclable between threads); trace validation of recorded concurrent runs against the "
+                  "threaded Lean machine; schedule exploration of the real code: a deterministic PRNG-driven scheduler built on a sys.settrace line hook (schedule = replayable switch "
+                  "list) and free running threads with a 1 microsecond switch interval, each run in a fresh process, every call compared with the same call alone",
+        text="Kernel-checked (interleave_safe) for any number of threads, all programs and ALL schedules: if every thread follows the clear protocol on the graphs it owns, every query "
+             "returns the value recomputed from the thread's own graph as it is at that moment and no section raises KeyError - the unlocked compute and the store 'after the cache may "
+             "have been cleared in the meantime' are harmless, and recycled ids between threads are harmless; (interleave_sequential) hence, without ill-formed steps, every thread's query results are exactly those of its program run alone; "
+             "interleave_stale_counterexample shows the result of a thread that queries before clearing depends on the schedule. Real concurrent runs are replayed through the machine on every run (events must agree). The property itself (each call returns "
+             "what it returns alone, no foreign exception) is explored: quick ~20 scheduler runs (~10^6 yield points, ~10^5 thread switches) + ~20 free runs with 2-8 threads, thorough "
+             "~500 + ~400; sequential-in-process and fresh-process references.",
+        note="K3 abstraction as for C11; thread-private graphs (ownership) is an assumption of the theorem that the recorded runs are checked against (an op on a graph of another "
+             "thread would show as an ill-formed step). NOT modellable here, exploration only: the GIL's switch points inside C code (igraph, dict operations are atomic for the "
+             "scheduler), CPython's id recycling, the ANTLR runtime's shared ATN/DFA caches (half of the scheduler runs also trace the antlr4 ATN simulators so that switches happen "
+             "inside adaptivePredict/addDFAState; known finding: the MESSAGE of a ParseError depends on which thread parsed first). The deterministic scheduler serialises threads: it "
+             "explores interleavings at the granularity of traced lines of graph_utils, graph_minimizer, ssb_decompiler, explorerscript_reader, macro, compiler utils, ssb_compiler, "
+             "source_map only."),
 }
 
 PENDING_REASON ="check not built yet in this round (design in DESIGN.md §4); will be claimed once its Lean model and correspondence exist"
